@@ -38,8 +38,8 @@ CHECKS = {
     },
     "C04": {
         "level": "exploration",
-        "quick": {"shards": 16, "rounds": 1, "checks": 500, "timeout": 900},
-        "thorough": {"shards": 16, "rounds": 8, "checks": 1500, "timeout": 3000},
+        "quick": {"shards": 16, "rounds": 1, "checks": 400, "timeout": 900},
+        "thorough": {"shards": 16, "rounds": 6, "checks": 1500, "timeout": 3000},
         "assumptions": [
             "goroutine interleavings are sampled, not enumerated: each recorded execution is checked; schedules are perturbed by think times and a generated yield/sleep plan at the begin/commit/batch hook sites and cannot be replayed",
             "each client goroutine holds at most one transaction at a time (documented limitation of the single reader-writer lock)",
@@ -71,7 +71,7 @@ CHECKS = {
     "C07": {
         "level": "exploration", "race": True,
         # every case runs in its own child process (race build, 0.3-2 s each)
-        "quick": {"shards": 16, "rounds": 1, "checks": 24, "timeout": 900},
+        "quick": {"shards": 16, "rounds": 1, "checks": 20, "timeout": 900},
         "thorough": {"shards": 16, "rounds": 4, "checks": 60, "timeout": 3000},
         "shrinktime": "40s",
         "assumptions": [
@@ -101,7 +101,7 @@ CHECKS = {
         "level": "fault_enumeration",
         "quick": {"shards": 16, "rounds": 1, "checks": 2000, "timeout": 900},
         "thorough": {"shards": 16, "rounds": 8, "checks": 2500, "timeout": 3000},
-        "exhaustive_subspace": "per generated log whose newest file is <= 3 KiB (thorough tier, 4 logs per process): every truncation offset and every byte position x {one bit flip, 0x00, 0xFF, +1}, judged at replay level (L1)",
+        "exhaustive_subspace": "per generated log whose newest file is <= 3 KiB (thorough tier, 6 logs per process): every truncation offset and every byte position x {one bit flip, 0x00, 0xFF, +1}, judged at replay level (L1)",
         "assumptions": [
             "damage model: one fault (truncation or one replaced byte) on the newest log file of a cleanly written log; older files undamaged",
             "the damaged log is written through pkg/wal, the database is then opened on it with engine.NewEngineFacade (memtable 32 MiB, so recovery does not flush)",
